@@ -261,6 +261,13 @@ func (e *Engine) initIntrinsics() {
 			e.opts.MinCap = v
 		case "feasfrom":
 			e.opts.FeasFrom = v
+		case "native":
+			// 0: the harness cannot be replayed natively (its environment outcomes are uninterpreted); counterexamples
+			// are then confirmed by re-executing the harness in the engine with the model's concrete values
+			e.NoNative = v == 0
+		case "bagchans":
+			// buffered channels created from now on deliver their queued elements in ANY order (independent senders)
+			e.bagChans = v != 0
 		}
 		return nil
 	}
@@ -776,6 +783,62 @@ func (e *Engine) initIntrinsics() {
 		panic(e.unsupported("sha256 of symbolic input"))
 	}
 
+	// ---- cryptography and peer-ID parsing: uninterpreted, driven by outcome classes the harness registers with
+	// vpCryptoSet (from_garbage, from_extractable, key_garbage, key_is_author, sig_valid). The algebraic contract:
+	// the key bound to an author is K_author; Verify succeeds iff the key is K_author and the signature is valid.
+	I["vp:vpCryptoSet"] = func(e *Engine, a []Value, pos token.Pos, fn *ssa.Function) Value {
+		if e.crypto == nil {
+			e.crypto = map[string]*Term{}
+		}
+		v := a[1].(*Term)
+		if v.S.K != SBool {
+			v = tb.Not(tb.Eq(v, tb.BVConst(0, v.S.W)))
+		}
+		e.crypto[e.constStr(a[0], "vpCryptoSet key")] = v
+		return nil
+	}
+	cr := func(e *Engine, k string) *Term {
+		if t, ok := e.crypto[k]; ok {
+			return t
+		}
+		panic(e.unsupported("crypto outcome class %q not registered by the harness (vpCryptoSet)", k))
+	}
+	errT := types.Universe.Lookup("error").Type()
+	pubkey := func(e *Engine, author *Term) Value {
+		if e.keyAuthor == nil {
+			e.keyAuthor = e.opaqueIfaceOf("pubkey", "K_author")
+			e.keyOther = e.opaqueIfaceOf("pubkey", "K_other")
+		}
+		return e.iteVal(author, e.keyAuthor, e.keyOther)
+	}
+	I["github.com/libp2p/go-libp2p/core/peer.IDFromBytes"] = func(e *Engine, a []Value, pos token.Pos, fn *ssa.Function) Value {
+		b := a[0].(*SliceV)
+		fails := tb.Or(cr(e, "from_garbage"), tb.Eq(e.sliceLen(b), tb.Int(0)))
+		id := e.bytesToString(b, pos)
+		return &TupleV{[]Value{e.iteVal(fails, e.str(""), id), e.iteVal(fails, e.newErr("bad peer id"), e.zero(errT))}}
+	}
+	I["(github.com/libp2p/go-libp2p/core/peer.ID).ExtractPublicKey"] = func(e *Engine, a []Value, pos token.Pos, fn *ssa.Function) Value {
+		ok := cr(e, "from_extractable")
+		kt := fn.Signature.Results().At(0).Type()
+		return &TupleV{[]Value{e.iteVal(ok, pubkey(e, tb.True), e.zero(kt)), e.iteVal(ok, e.zero(errT), e.newErr("no public key in peer id"))}}
+	}
+	I["github.com/libp2p/go-libp2p/core/crypto.UnmarshalPublicKey"] = func(e *Engine, a []Value, pos token.Pos, fn *ssa.Function) Value {
+		bad := cr(e, "key_garbage")
+		kt := fn.Signature.Results().At(0).Type()
+		return &TupleV{[]Value{e.iteVal(bad, e.zero(kt), pubkey(e, cr(e, "key_is_author"))), e.iteVal(bad, e.newErr("bad key"), e.zero(errT))}}
+	}
+	I["(github.com/libp2p/go-libp2p/core/peer.ID).MatchesPublicKey"] = func(e *Engine, a []Value, pos token.Pos, fn *ssa.Function) Value {
+		return e.valEq(a[1], pubkey(e, tb.True))
+	}
+	I["marker:pubkey.Verify"] = func(e *Engine, a []Value, pos token.Pos, fn *ssa.Function) Value {
+		isAuthor := e.valEq(&IfaceV{[]IfaceAlt{{G: tb.True, T: e.marker("pubkey"), V: a[0]}}}, pubkey(e, tb.True))
+		e.verifyCalls++
+		return &TupleV{[]Value{tb.And(isAuthor, cr(e, "sig_valid")), e.zero(errT)}}
+	}
+	I["github.com/libp2p/go-libp2p/core/crypto.MarshalPublicKey"] = func(e *Engine, a []Value, pos token.Pos, fn *ssa.Function) Value {
+		return &TupleV{[]Value{e.stringToBytes(e.str("KEY"), types.NewSlice(types.Typ[types.Uint8])), e.zero(errT)}}
+	}
+
 	// ---- libp2p identity helpers (text only used for logging) -------------------------------------
 	ident := func(e *Engine, a []Value, pos token.Pos, fn *ssa.Function) Value { return a[0] }
 	I["(github.com/libp2p/go-libp2p/core/peer.ID).String"] = ident
@@ -963,4 +1026,12 @@ func (e *Engine) permute(s *SliceV, pos token.Pos) {
 			al.Arr.E[off+k] = e.iteVal(gk, nv, al.Arr.E[off+k])
 		}
 	}
+}
+
+func (e *Engine) opaqueIfaceOf(marker, tag string) *IfaceV {
+	mt := e.marker(marker)
+	obj := e.newObj(OOpaque, mt, tag)
+	obj.Tag = tag
+	e.errTexts[obj] = tag
+	return &IfaceV{[]IfaceAlt{{G: e.tb.True, T: mt, V: e.ptrTo(obj)}}}
 }
